@@ -430,6 +430,12 @@ pub fn gen_c16(tier: Tier, seed: u64) -> Case {
     let kind = pick_kind(&mut r);
     let mut g = G::new(&mut r, n_names, 3, kind, false);
     g.cfg.check_every = 0;
+    // now and then compaction filter factories are assigned to some of the names: attaching a
+    // factory must not disturb any other option (at creation or on recovery)
+    if g.r.chance(1, 4) {
+        let names = g.cfg.names.clone();
+        g.cfg.filtered = names.into_iter().filter(|_| g.r.chance(1, 2)).collect();
+    }
     for i in 0..n_names {
         g.cfg.opts[i] = gen_c16_opts(g.r);
     }
@@ -524,11 +530,18 @@ pub fn gen_c18(tier: Tier, seed: u64) -> Case {
     for i in 0..n_names {
         program.push(Op::MajorCompact { ks: i as u8 });
     }
+    program.push(Op::CheckFiltered);
     program.push(Op::Check);
     program.push(Op::Reopen);
+    // (after the reopen the active journal is replayed into the memtables: flush again)
+    for i in 0..n_names {
+        program.push(Op::Rotate { ks: i as u8 });
+    }
+    program.push(Op::Drain);
     for i in 0..n_names {
         program.push(Op::MajorCompact { ks: i as u8 });
     }
+    program.push(Op::CheckFiltered);
     program.push(Op::Check);
     let class = format!("filtered{}of{}", g.cfg.filtered.len(), n_names);
     base_case("C18", seed, &g, program, class)
